@@ -74,7 +74,8 @@ pub fn pos_of_board(b: &Board) -> Pos {
 }
 
 /// Are the bitboard accessors of the board mutually consistent (piece sets disjoint, colour
-/// sets disjoint, union equal)? `pos_of_board` is only a faithful view when this holds.
+/// sets disjoint, union equal; `colored_pieces`, `king`, `piece_on`, `color_on` agreeing with the
+/// bitboards)? `pos_of_board` is only a faithful view when this holds.
 pub fn accessors_consistent(b: &Board) -> bool {
     let mut occ = 0u64;
     for &p in &Piece::ALL {
@@ -85,7 +86,31 @@ pub fn accessors_consistent(b: &Board) -> bool {
         occ |= bb;
     }
     let (w, k) = (b.colors(Color::White).0, b.colors(Color::Black).0);
-    w & k == 0 && (w | k) == occ && b.occupied().0 == occ
+    if !(w & k == 0 && (w | k) == occ && b.occupied().0 == occ) {
+        return false;
+    }
+    // the derived accessors agree with the primary ones
+    for &c in &Color::ALL {
+        for &p in &Piece::ALL {
+            if b.colored_pieces(c, p).0 != b.colors(c).0 & b.pieces(p).0 {
+                return false;
+            }
+        }
+        let kings = b.colors(c).0 & b.pieces(Piece::King).0;
+        if kings.count_ones() == 1 && b.king(c) as usize != kings.trailing_zeros() as usize {
+            return false;
+        }
+    }
+    for s in 0..64u8 {
+        let sqr = lsq(s);
+        let bit = 1u64 << s;
+        let p = Piece::ALL.iter().copied().find(|&p| b.pieces(p).0 & bit != 0);
+        let c = Color::ALL.iter().copied().find(|&c| b.colors(c).0 & bit != 0);
+        if b.piece_on(sqr) != p || b.color_on(sqr) != c {
+            return false;
+        }
+    }
+    true
 }
 
 /// All moves the library generates, flattened, in generation order.
